@@ -33,16 +33,19 @@ type c11ncfg struct {
 	Gain     complex128
 	Ratio    float32
 	Token    string
+	Regions  []c11Region
 	// tags written in capitals on two levels
 	Store c11store `dials:"DB"`
 }
+
+type c11Region string
 
 type c11store struct {
 	Host string `dials:"HOST"`
 }
 
 func HarnessC11Names() {
-	all := []string{"USER_IDS", "HTTP_PORT", "MAX_QPS", "LABELS", "BACKEND_ALLOWED_IPS", "USER_ID", "CITIES", "GAIN", "TIER", "CAFÉ_URL", "RATIO", "TOKEN", "MENÜ_ID_KEY", "DB_HOST", "DBHOST"}
+	all := []string{"USER_IDS", "HTTP_PORT", "MAX_QPS", "LABELS", "BACKEND_ALLOWED_IPS", "USER_ID", "CITIES", "GAIN", "TIER", "CAFÉ_URL", "RATIO", "TOKEN", "MENÜ_ID_KEY", "DB_HOST", "DBHOST", "REGIONS"}
 	decoys := []string{"L", "MENÜID_KEY", "MENÜ_IDKEY", "CAF_URL", "CAFÉURL", "CAFÉ_U_R_L", "USER_I_DS", "USER_ID_S", "USERIDS", "HTTPPORT", "H_T_T_P_PORT", "MAX_Q_P_S", "MAXQPS", "BACKEND_ALLOWED_I_PS", "ALLOWED_IPS"}
 	clear := func() {
 		for _, n := range all {
@@ -98,6 +101,7 @@ func HarnessC11Names() {
 	zzverif.Setenv("GAIN", "0.1+0.2i")
 	zzverif.Setenv("RATIO", "3.4028235e+38") // the largest float32, as strconv prints it
 	zzverif.Setenv("TOKEN", "c2VjcmV0==")    // a value containing '='
+	zzverif.Setenv("REGIONS", "eu,us")
 	hStore := zzverif.Bool("has_store")
 	if hStore {
 		zzverif.Setenv("DB_HOST", "dbh")
@@ -152,6 +156,8 @@ func HarnessC11Names() {
 		storeOK = !h.IsNil() && h.Elem().String() == "dbh"
 	}
 	zzverif.AssertUnlessKnown(storeOK, "C11 DB_HOST (capitalised tags on two levels): leaf unset although its variable is present, or set although absent", "c11-allcaps-tags", true)
+	rg := f("Regions")
+	zzverif.Assert(!rg.IsNil() && rg.Len() == 2 && rg.Index(1).String() == "us", "C11 REGIONS (slice of a named string type): wrong value")
 	lb := f("Labels")
 	zzverif.Assert(lb.IsNil() == (hLabels == 0), "C11 LABELS: map set/unset wrongly")
 	if hLabels != 0 && !lb.IsNil() {
@@ -175,4 +181,30 @@ func HarnessC11Names() {
 		zzverif.Assert(lb.Len() == wantLen, "C11 LABELS: wrong number of entries")
 	}
 	zzverif.Reached("c11-names-end")
+}
+
+// HarnessC11PrefixTwice: one prefixed Source asked for its value twice reads the same variables
+// both times.
+func HarnessC11PrefixTwice() {
+	for _, n := range []string{"APP_PORT", "APP__PORT", "PORT"} {
+		zzverif.Unsetenv(n)
+	}
+	defer zzverif.Unsetenv("APP_PORT")
+	defer zzverif.Unsetenv("APP__PORT")
+	port := zzverif.Int64("port")
+	zzverif.Assume(zzverif.And(port >= -1<<15, port <= 1<<15-1))
+	zzverif.Setenv("APP_PORT", zzverif.Literal(port, zzverif.StyleDecimal))
+	zzverif.Setenv("APP__PORT", "99")
+	type cfg struct{ Port int16 }
+	t := dials.NewType(ptrify.Pointerify(reflect.TypeOf(cfg{}), reflect.Value{}))
+	src := &Source{Prefix: "APP"}
+	for i := 0; i < 2; i++ {
+		val, err := src.Value(context.Background(), t)
+		zzverif.Assert(err == nil, "C11 a prefixed environment source failed on a valid value")
+		if err == nil {
+			p := val.FieldByName("Port")
+			zzverif.Assert(!p.IsNil() && p.Elem().Int() == port, "C11 a prefixed Source asked for its value a second time read another variable (or none)")
+		}
+	}
+	zzverif.Reached("c11-prefix-twice-end")
 }
